@@ -1,7 +1,9 @@
 import DicomModel.Lemmas.Collector
+import DicomModel.Props.C02
 import DicomModel.Lemmas.LazyEager
 import DicomModel.Lemmas.ReadUntil
 import DicomModel.Lemmas.RefLazy
+import DicomModel.Lemmas.Fragments
 /-
 C06 — the lazy reader and the collector agree with the eager reader.
 
@@ -184,6 +186,59 @@ theorem read_until_wins (stop tag : Tag) : stopAt (some stop) (some stop) tag = 
       have : Tag.le stop tag = true := by rw [le_iff]; omega
       rw [this] at h; cases h
   · simp
+
+/-! ### collector = whole file, fragments one by one (repaired code: fixes 1b02116, 4dbd2d8) -/
+open Dicom.CW in
+/-- **the collector yields the same elements as opening the whole file**: for the encoding of any canonical
+data set (all depths, explicit / undefined lengths, all VRs, encapsulated pixel data with empty or non-empty
+offset table and zero-length fragments, three syntaxes) the whole-file read (`readDataset` = eager reader +
+`build_object`) returns the data set `t`, and `read_dataset_to_end` of the collector returns the same
+elements in the same order — `cnElems t` is `t` with the recorded item lengths forgotten, which the collector
+does not keep and which object equality of dicom-rs ignores. -/
+theorem collector_eq_whole (ts : Syntax) (dict : Tag → Option VR) (t : Elems) (h : Ref.canonical ts dict t = true) :
+    readDataset ts dict (Ref.encElems ts t) = .ok t ∧
+    ∃ c', (Coll.new ts dict (Ref.encElems ts t)).readDatasetToEnd ((Ref.encElems ts t).length + 2) =
+      .ok (Ref.toList (cnElems t), c') := by
+  have hw := C02.read_ref ts dict t h
+  simp only [Ref.canonical, Bool.and_eq_true] at h
+  exact ⟨hw, collector_ref ts dict t h.1.1 h.1.2⟩
+
+open Dicom.CW in
+/-- … and so do the portions, split at ANY stop tags: `read_dataset_up_to` for each tag in turn, then
+`read_dataset_to_end`, together collect exactly the elements of the whole file -/
+theorem collector_portions_eq_whole (ts : Syntax) (dict : Tag → Option VR) (t : Elems) (stops : List Tag)
+    (h : Ref.canonical ts dict t = true) :
+    ∃ c', Portions stops (Coll.new ts dict (Ref.encElems ts t)) [] (Ref.toList (cnElems t)) c' := by
+  obtain ⟨c', hc⟩ := (collector_eq_whole ts dict t h).2
+  exact ⟨c', collector_portions stops _ _ [] _ c' hc⟩
+
+open Dicom.CW in
+/-- **`fragments_one_by_one`**: for the encoding of a canonical data set `pre ++ [Pixel Data] ++ post` with an
+encapsulated Pixel Data element (offset table `bot`, fragments `frags`) and no pixel data at any depth before it:
+ * the whole-file read returns the data set, hence Pixel Data with exactly `bot` and `frags`;
+ * `read_basic_offset_table` returns `4·|bot|` and the same table `bot` — also the empty one — and then
+   `read_next_fragment` returns the same fragments one per call, in order, each with its length, zero-length
+   ones included, then `None` for ever (`FragCalls`; state `PixelDataEnd`);
+ * without the table call the first `read_next_fragment` returns the table's bytes, the next calls the fragments. -/
+theorem fragments_one_by_one (ts : Syntax) (dict : Tag → Option VR) (pre post : Elems) (bot : List Nat)
+    (frags : List Bytes)
+    (h : Ref.canonical ts dict (appendElems pre (.cons (.pix bot frags) post)) = true)
+    (hno : ∀ t ∈ pre.tokens, pixelStartTok t = false) :
+    let t := appendElems pre (.cons (.pix bot frags) post)
+    let fuel := (Ref.encElems ts t).length + 4
+    readDataset ts dict (Ref.encElems ts t) = .ok t ∧
+    (∃ c1, (Coll.new ts dict (Ref.encElems ts t)).readBasicOffsetTable fuel = .ok (some (4 * bot.length, bot), c1) ∧
+        FragCalls fuel c1 frags) ∧
+    (∃ c1, (Coll.new ts dict (Ref.encElems ts t)).readNextFragment fuel =
+        .ok (some (4 * bot.length, bot.flatMap (enc32 ts.bigEndian)), c1) ∧ FragCalls fuel c1 frags) := by
+  intro t fuel
+  have hw := C02.read_ref ts dict t h
+  simp only [Ref.canonical, Bool.and_eq_true] at h
+  exact ⟨hw, fragments_ref ts dict pre post bot frags h.1.1 h.1.2 hno⟩
+
+/-- once the pixel data has ended every further `read_next_fragment` returns `None` -/
+theorem no_fragment_after_end (fuel : Nat) (c : Coll) (h : c.state = .pixelDataEnd) :
+    c.readNextFragment fuel = .ok (none, c) := CW.after_end fuel c h
 
 /-! ### regression witnesses of the three repaired collector defects (fixes 1b02116, 4dbd2d8)
 
